@@ -157,6 +157,12 @@ fn cmd_replay(args: &[String]) {
                             }
                         }
                     }
+                    if verdict.is_none() {
+                        if let Some(w) = run::variant_drift(&c.raw["exp"], &o) {
+                            verdict = Some(w);
+                            sc_override = Some(json!([]));
+                        }
+                    }
                     // relational case: a second spelling of the same rule must behave identically
                     if verdict.is_none() || sc_override.is_some() {
                         if let Some(r2) = c.raw.get("rule2") {
